@@ -26,6 +26,12 @@ pub fn sc_addr(b: u8) -> VMAddress {
     VMAddress::new(a)
 }
 
+pub fn esdt_system_sc() -> VMAddress {
+    let mut a = [0u8; 32];
+    a[9] = 1; a[29] = 2; a[30] = 0xff; a[31] = 0xff;
+    VMAddress::new(a)
+}
+
 pub fn big(n: u64) -> Vec<u8> { n.to_be_bytes().iter().cloned().skip_while(|x| *x == 0).collect() }
 pub fn bigu(n: &BigUint) -> Vec<u8> { if n == &BigUint::from(0u32) { vec![] } else { n.to_bytes_be() } }
 pub fn nested_buf(b: &[u8]) -> Vec<u8> { let mut v = (b.len() as u32).to_be_bytes().to_vec(); v.extend_from_slice(b); v }
@@ -51,6 +57,12 @@ impl World {
         w.reg(b"governance", governance::ContractBuilder);
         w.reg(b"tm", token_manager::ContractBuilder);
         w.reg(b"its", interchain_token_service::ContractBuilder);
+        // the ESDT system contract account (callbacks of forged asynchronous results come "from" it)
+        let sys = esdt_system_sc();
+        w.r.blockchain_mock.state.accounts.insert(sys.clone(), AccountData {
+            address: sys, nonce: 0, egld_balance: BigUint::from(0u32), esdt: Default::default(),
+            username: vec![], storage: Default::default(), contract_path: None,
+            code_metadata: VMCodeMetadata::empty(), contract_owner: None, developer_rewards: BigUint::from(0u32) });
         w
     }
     fn reg<B: CallableContractBuilder>(&mut self, code: &[u8], b: B) {
@@ -147,6 +159,15 @@ impl World {
     /// run an already built TxInput (async destination calls and callbacks)
     pub fn run_input(&mut self, input: TxInput) -> Step {
         let before = self.snapshot();
+        let res = self.r.blockchain_mock.vm.execute_sc_call_lambda(input, &mut self.r.blockchain_mock.state, execute_current_tx_context_input);
+        self.finish(before, res)
+    }
+
+    /// like run_input, but `pre` (harness-side effects of a forged asynchronous delivery, e.g. the
+    /// issue cost consumed by the system contract) is applied inside the observed step
+    pub fn run_input_after<F: FnOnce(&mut ScenarioVMRunner)>(&mut self, pre: F, input: TxInput) -> Step {
+        let before = self.snapshot();
+        pre(&mut self.r);
         let res = self.r.blockchain_mock.vm.execute_sc_call_lambda(input, &mut self.r.blockchain_mock.state, execute_current_tx_context_input);
         self.finish(before, res)
     }
